@@ -6,16 +6,21 @@
      the emission order                  record_event / record_ret_stack / record_trace_data
      dropping with a filtered call       mcount_exit_filter_record ("invalidate sync events")
 
-   of libmcount/record.c and libmcount/mcount.c, AS THE CODE IS (defects included).
+   of libmcount/record.c and libmcount/mcount.c, AS THE CODE IS.  (Four defects found with this model were
+   repaired in /repo: 7cf042b overlap guard, aa8baff thread's copy of a watched variable, 35535f9
+   invalidation index, 197b449 allocation of the watch item.  The main definitions describe the repaired
+   code; the [_legacy] definitions at the end keep the old behaviour for the [_legacy_refuted] theorems
+   only - the tie never uses them.)
 
    Construction: the base machine [dstep] runs unchanged on the base state; the extension state
    [xpart] (one [fx] per shadow-stack frame, the pending queue, the watch state, the output with
    events) is computed next to it from the same pre-state.  Executable model and executable
    checkers only - no proofs in this file.
 
-   Not modelled: asynchronous (SDT) events (ASYNC_IDX), argument/return-value capture in the same
-   frame (covered separately by the buffer-level model [guard_*] at the end of this file), threads
-   sharing the global watch item, shmem buffer exhaustion.                                        *)
+   Not modelled: asynchronous (SDT) events (ASYNC_IDX), the bytes of argument/return-value capture in the
+   same frame (the overlap guard is modelled at buffer level, [guard_*] at the end of this file; with the
+   small argument areas the tie generates every event fits), threads sharing the global watch item,
+   shmem buffer exhaustion.                                        *)
 From Coq Require Import NArith ZArith List Bool.
 Import ListNotations.
 Require Import UV.Gen.Consts UV.Gen.C17Consts UV.Mcount.Model UV.Mcount.Forest UV.Mcount.Check.
@@ -68,12 +73,7 @@ Record xcfg := {
   xb : cfg;                       (* the base configuration *)
   read_of : N -> N;               (* tr->read of the function's trigger (0 = no TRIGGER_FL_READ) *)
   wp_cpu : bool; wp_var : bool;   (* mcount_watchpoints *)
-  pmu_ok : bool;                  (* perf_event_open works (else read_pmu_event fails: event skipped) *)
-  (* which of two variants the code under test implements at two decision points (both [false] = the code
-     as found; [true] = the code with proposed-fixes/C17-2.diff / C17-3.diff applied).  The tie determines
-     the variant with the dedicated witnesses before it runs the generated cases. *)
-  fix_var : bool;                 (* save_watchpoint updates the thread's copy of the variable it compares with *)
-  fix_drop : bool                 (* the invalidation compares with mtdp->idx - 1 (the exiting frame's own index) *)
+  pmu_ok : bool                   (* perf_event_open works (else read_pmu_event fails: event skipped) *)
 }.
 
 (* red->save(): None = failure (the event is skipped) *)
@@ -105,8 +105,8 @@ Record xpart := {
   pend : list aev;                (* mtdp->event[0 .. nr_events-1] *)
   w_inited : bool;                (* mtdp->watch.inited *)
   w_cpu : Z;                      (* mtdp->watch.cpu *)
-  v_copy : option N;              (* the thread's copy of the watched variable (made by mcount_watch_setup
-                                     at the thread's first hook; the code as found never updates it) *)
+  v_copy : option N;              (* the thread's copy of the watched variable (made by mcount_watch_setup at the
+                                     thread's first hook, then the last value this thread has seen) *)
   g_init : bool; g_val : N;       (* the global watch item: inited, data (mcount_watch_update) *)
   xout : list item
 }.
@@ -186,7 +186,7 @@ Definition x_watch (C : xcfg) (f : frame) (pos : N) (o : oval) (X : xpart) : xpa
                            a_idx := pos |}]
             else p1 in
   {| xs := xs X; pend := p2; w_inited := true; w_cpu := wc;
-     v_copy := if fix_var C && differs then Some v else v_copy X;
+     v_copy := if differs then Some v else v_copy X;      (* remember what this thread has seen *)
      g_init := if hit then true else g_init X; g_val := if hit then v else g_val X; xout := xout X |}.
 
 (* ---------------------------------------------------------------- record_ret_stack with events *)
@@ -293,7 +293,8 @@ Definition exit_cond (c : cfg) (s : st) (top : frame) : bool :=
   let dur := (f_end top + 18446744073709551616 - f_start top) mod 18446744073709551616 in
   ((time_filter <? dur) && (negb (has_caller c) || fcaller g)) || written g || ftrace g.
 
-(* for (i = 0, k = 0; i < nr_events; i++) if (event[i].idx < mtdp->idx) k = i + 1;  nr_events = k; *)
+(* for (i = 0, k = 0; i < nr_events; i++) if (event[i].idx < mtdp->idx - 1) k = i + 1;  nr_events = k;
+   (mtdp->idx still counts the exiting function: midx below is its own index) *)
 Fixpoint last_keep (midx : N) (p : list aev) (i k : nat) : nat :=
   match p with
   | [] => k
@@ -321,7 +322,7 @@ Definition x_leave (C : xcfg) (s : st) (X : xpart) (t : N) (o : oval) : xpart :=
         let X1 := x_watch C top1 (N.of_nat (length anc)) o Xp in
         if exit_cond c s top1 then
           let '(its, p') := x_rtd top1 x1 anc axs (pend X1) in emit X1 its p'
-        else set_pend X1 (invalidate (if fix_drop C then idx s - 1 else idx s) (pend X1))
+        else set_pend X1 (invalidate (idx s - 1) (pend X1))
   end.
 
 (* ---------------------------------------------------------------- driver *)
@@ -396,9 +397,11 @@ Fixpoint xrecs (C : xcfg) (thr lim d : N) (k : xcall) : list item :=
   end.
 
 (* plain base configuration (no -F/-N/-T filter options) + read triggers, no watch points *)
-Definition xplain (thr gd ms : N) (sh : shape) (rd : N -> N) (pm fv fd : bool) : xcfg :=
-  {| xb := plain thr gd ms sh; read_of := rd; wp_cpu := false; wp_var := false; pmu_ok := pm;
-     fix_var := fv; fix_drop := fd |}.
+Definition xplain (thr gd ms : N) (sh : shape) (rd : N -> N) (pm : bool) : xcfg :=
+  {| xb := plain thr gd ms sh; read_of := rd; wp_cpu := false; wp_var := false; pmu_ok := pm |}.
+(* the same with watch points *)
+Definition xplainw (thr gd ms : N) (sh : shape) (rd : N -> N) (pm wc wv : bool) : xcfg :=
+  {| xb := plain thr gd ms sh; read_of := rd; wp_cpu := wc; wp_var := wv; pmu_ok := pm |}.
 
 (* ---------------------------------------------------------------- specification: watch decisions
    The sequence of observations a thread makes (one per hook that reaches save_watchpoint) against
@@ -471,8 +474,8 @@ Definition agree_x (C : xcfg) (es : list xev) (ostates : list (xobs)) (oitems : 
   list_eqb xo_eqb l ostates && list_eqb oitem_eqb (map oseen (xout X)) oitems.
 
 (* table-driven configuration *)
-Definition mkxcfg (b : cfg) (rd : list (N * N)) (wc wv pm fv fd : bool) : xcfg :=
-  {| xb := b; read_of := assoc 0 rd; wp_cpu := wc; wp_var := wv; pmu_ok := pm; fix_var := fv; fix_drop := fd |}.
+Definition mkxcfg (b : cfg) (rd : list (N * N)) (wc wv pm : bool) : xcfg :=
+  {| xb := b; read_of := assoc 0 rd; wp_cpu := wc; wp_var := wv; pmu_ok := pm |}.
 
 (* ---------------------------------------------------------------- executable property checkers,
    applied to IMPLEMENTATION streams *)
@@ -594,8 +597,7 @@ Fixpoint hooks_of (d c : list bool) (t gap i : N) : list xev :=
   | _, _ => []
   end.
 Definition wcfg_small (sh : shape) : xcfg :=
-  {| xb := plain 0 1024 1024 sh; read_of := fun _ => 0; wp_cpu := true; wp_var := false; pmu_ok := false;
-     fix_var := false; fix_drop := false |}.
+  {| xb := plain 0 1024 1024 sh; read_of := fun _ => 0; wp_cpu := true; wp_var := false; pmu_ok := false |}.
 Definition small_case (sh : shape) (gap : N) (d c : list bool) : bool :=
   let es := hooks_of d c 100 gap 0 in
   let l := map oideal (xout (snd (xexec (wcfg_small sh) es xstart))) in
@@ -621,15 +623,14 @@ Definition chain_ok (n : nat) (sh : shape) (gap : N) : bool :=
 (* ---------------------------------------------------------------- buffer-level model of the overlap
    guard of save_trigger_read (arguments and events share the 1024-byte frame buffer).
    The frame buffer: bytes [0, 4 + asz) hold the argument size word and the argument data when
-   MCOUNT_FL_ARGUMENT / MCOUNT_FL_RETVAL is set; events occupy [event_idx, ARGBUF_SIZE).
-   The guard adds the 32-bit word found AT THE EVENT POINTER (argbuf + event_idx) to the buffer start -
-   [w_at_ptr] is that word: the first word of the NEXT frame's buffer when no event is stored yet
-   (event_idx = ARGBUF_SIZE), the low half of the lowest event's time stamp otherwise. *)
+   MCOUNT_FL_ARGUMENT is set; events occupy [event_idx, ARGBUF_SIZE).  The guard:
+       arg_data = argbuf;  if (flags & MCOUNT_FL_ARGUMENT) arg_data += 4 + <the size word at arg_data>;
+       event = ptr - evsize;  if (event < arg_data) continue;                                            *)
 Record gbuf := { has_args : bool; asz : N; event_idx : N; w_at_ptr : N }.
 (* does save_trigger_read store an event of payload size [dsz]? *)
 Definition guard_stores (b : gbuf) (dsz : N) : bool :=
   let evsize := EVTBUF_HDR + dsz in
-  let arg_data := if has_args b then w_at_ptr b else 0 in
+  let arg_data := if has_args b then 4 + asz b else 0 in
   (evsize <=? event_idx b) && (arg_data <=? event_idx b - evsize).
 (* the argument bytes and the new event do not overlap *)
 Definition disjoint_after (b : gbuf) (dsz : N) : bool :=
@@ -637,3 +638,26 @@ Definition disjoint_after (b : gbuf) (dsz : N) : bool :=
 (* the event fits above the argument bytes *)
 Definition room_for (b : gbuf) (dsz : N) : bool :=
   (EVTBUF_HDR + dsz <=? event_idx b) && (negb (has_args b) || (4 + asz b <=? event_idx b - (EVTBUF_HDR + dsz))).
+
+(* ================================================================ LEGACY variants (before the fix: commits),
+   used by the [_legacy_refuted] theorems only *)
+(* 7cf042b: the guard added the 32-bit word found AT THE EVENT POINTER (argbuf + event_idx) to the buffer
+   start - [w_at_ptr]: the first word of the NEXT frame's buffer when no event is stored yet, the low half
+   of the lowest event's time stamp otherwise *)
+Definition guard_stores_legacy (b : gbuf) (dsz : N) : bool :=
+  let evsize := EVTBUF_HDR + dsz in
+  let arg_data := if has_args b then w_at_ptr b else 0 in
+  (evsize <=? event_idx b) && (arg_data <=? event_idx b - evsize).
+(* aa8baff: save_watchpoint never updated the thread's copy *)
+Definition x_watch_legacy (C : xcfg) (f : frame) (pos : N) (o : oval) (X : xpart) : xpart :=
+  let X' := x_watch C f pos o X in
+  {| xs := xs X'; pend := pend X'; w_inited := w_inited X'; w_cpu := w_cpu X'; v_copy := v_copy X;
+     g_init := g_init X'; g_val := g_val X'; xout := xout X' |}.
+Fixpoint wrun_legacy (C : xcfg) (l : list (N * oval)) (X : xpart) : list fev :=
+  match l with
+  | [] => []
+  | (t, o) :: r => let X1 := x_watch_legacy C (dummy_frame t) 0 o X in
+                   map a_ev (pend X1) ++ wrun_legacy C r (set_pend X1 [])
+  end.
+(* 35535f9: the invalidation was called with mtdp->idx (one above the exiting frame's index):
+   [invalidate (n + 1)] at the exit of frame n *)
